@@ -512,7 +512,7 @@ def part_report(ctx, labelled, results):
     """observe_at: the two SUMMARY sections of the report are, character for character, the string model applied to the
     values the run holds (also for the partial report main() prints after an exception), and HipRaResult's parse of the
     report is the model parser's."""
-    terms, meta, budget = [], [], ctx.n(80, 1500)
+    terms, meta, budget = [], [], ctx.n(80, 1000)
     for (label, text), r in zip(labelled, results):
         if r.get('read_error') or (len(meta) >= 3 * budget and not r['calc_error']):
             continue
@@ -645,7 +645,7 @@ def correspondence(ctx, proofs_ok=True):
     def mark(name):
         marks.append(f'{name} {time.time() - t0:.0f}s')
 
-    cfgs = configs(ctx, ctx.n(300, 6000))
+    cfgs = configs(ctx, ctx.n(300, 4000))
     labelled = corpus_cases() + [(f'{style}:{k}', text_of(cfg)) for k, (style, cfg) in enumerate(cfgs)]
     results = hiprun.run_many(ctx, [t for _, t in labelled], want_report=True)
     mark('runs')
@@ -657,7 +657,7 @@ def correspondence(ctx, proofs_ok=True):
     part_ranges(ctx)
     mark('report+helpers+ranges')
     normal = [(s, c) for s, c in cfgs if s != 'edge']
-    part_scaling(ctx, cfgs[:ctx.n(80, 1500)])
+    part_scaling(ctx, cfgs[:ctx.n(80, 1000)])
     mark('scaling')
     part_units(ctx, normal[:ctx.n(6, 60)], unit_table)
     mark('units')
